@@ -68,6 +68,21 @@ static int check(const std::string &ob, const std::vector<long> &a, const std::v
             if (!meq(to_mat(B), ref_rref(to_mat(A)))) { if (verbose) { show(to_mat(A), "A"); show(to_mat(B), "rref"); show(ref_rref(to_mat(A)), "exact rref"); std::cout << "REPRODUCED: reduced_row_echelon_form(normalize_last=" << nl << ") differs from the exact RREF\n"; } return 1; } }
         return 0;
     }
+    if (ob.find("row_insert") != std::string::npos || ob.find("col_insert") != std::string::npos) {
+        // every block of 1..2 rows / columns inserted at every position of a small matrix, against an entry-by-entry reference
+        for (unsigned r = 1; r <= 3; r++) for (unsigned c = 1; c <= 3; c++) for (unsigned blk = 1; blk <= 2; blk++) {
+            std::vector<long> av, bv; for (unsigned k = 0; k < r * c; k++) av.push_back(10 + k); for (unsigned k = 0; k < 6; k++) bv.push_back(50 + k);
+            for (unsigned pos = 0; pos <= r; pos++) { DenseMatrix X = to_dense(av, r, c), B = to_dense(bv, blk, c); X.row_insert(B, pos);
+                for (unsigned i = 0; i < r + blk; i++) for (unsigned j = 0; j < c; j++) { RCP<const Basic> want = (i >= pos && i < pos + blk) ? B.get(i - pos, j) : RCP<const Basic>(integer(av[(i < pos ? i : i - blk) * c + j]));
+                    RCP<const Basic> got = X.get(i, j);
+                    if (got.is_null() || !eq(*got, *want)) { if (verbose) std::cout << "row_insert of a " << blk << "-row block at " << pos << " into a " << r << "x" << c << " matrix: entry (" << i << "," << j << ") wrong\nREPRODUCED\n"; return 1; } } }
+            for (unsigned pos = 0; pos <= c; pos++) { DenseMatrix X = to_dense(av, r, c), B = to_dense(bv, r, blk); X.col_insert(B, pos);
+                for (unsigned i = 0; i < r; i++) for (unsigned j = 0; j < c + blk; j++) { RCP<const Basic> want = (j >= pos && j < pos + blk) ? B.get(i, j - pos) : RCP<const Basic>(integer(av[i * c + (j < pos ? j : j - blk)]));
+                    RCP<const Basic> got = X.get(i, j);
+                    if (got.is_null() || !eq(*got, *want)) { if (verbose) std::cout << "col_insert of a " << blk << "-column block at " << pos << " into a " << r << "x" << c << " matrix: entry (" << i << "," << j << ") wrong\nREPRODUCED\n"; return 1; } } }
+        }
+        return 0;
+    }
     if (NN != MM) return 0;
     DenseMatrix A = to_dense(a, NN, NN); Mat MA = to_mat(A); RCP<const Basic> d = laplace(MA);
     if (ob.find("det_bareis") != std::string::npos) { if (!eq(*det_bareis(A), *d)) { if (verbose) { show(MA, "A"); std::cout << "REPRODUCED: det_bareis = " << det_bareis(A)->__str__() << ", cofactor expansion = " << d->__str__() << "\n"; } return 1; } return 0; }
